@@ -168,7 +168,7 @@ func init() {
 		Assumptions: append([]string{"a fmt-3 chunk that starts a NEW message right after an extended-timestamp header is ambiguous in the specification and not generated", "no Abort messages"}, rtmpAssume...),
 		Harnesses: []harnessSpec{
 			{Pkg: "rtmp", Func: "HarnessC02_Headers", Labels: []string{"headers", "extdelta"},
-				Bound: "one chunk stream (form 1/2/3 forked, id symbolic in 3..63 / 64..319 / 64..65599), 2 messages (thorough 2-3), later ones with header type 0/1/2/3 forked; timestamps and deltas 32 symbolic bits (extended timestamps are solver choices); payload 1-4 symbolic bytes"},
+				Bound: "one chunk stream (form 1/2/3 forked, id symbolic in 3..63 / 64..319 / 64..65599), 2 messages (thorough 2-3; 3-message sequences are read whole), later ones with header type 0/1/2/3 forked; timestamps and deltas 32 symbolic bits (extended timestamps are solver choices); payload 1-4 symbolic bytes"},
 			{Pkg: "rtmp", Func: "HarnessC02_Interleave", Labels: []string{"interleave"},
 				Bound: "Set Chunk Size with symbolic size in [1,2^31-1], two chunk streams (forms forked, ids symbolic and distinct), one message of 1-4 bytes each, all interleavings of their chunks"},
 			{Pkg: "rtmp", Func: "HarnessC02_Follow", Labels: []string{"follow"}, Bound: "one chunk stream, chunk size 1..3: a fmt-0 message of 1-3 bytes (1-3 chunks) followed by 1-2 messages starting with fmt 1/2/3 (fmt 3: delta inherited, after fmt 0 the timestamp), each again chunked; 16-bit timestamps and deltas"},
